@@ -44,15 +44,15 @@ func put(v any, parts []string, val any) (any, error) {
 		if !ok {
 			return nil, bad("cannot create field %q in an array", p)
 		}
+		existed := i < len(x)
 		for len(x) <= i {
 			x = append(x, nil)
 		}
+		// an element that exists (also a null one) is descended into - a field cannot be created in a null -
+		// while an element created by padding is built from nothing
 		cur := any(Missing)
-		if x[i] != nil || len(parts) == 1 {
+		if existed || len(parts) == 1 {
 			cur = x[i]
-		}
-		if cur == nil && len(parts) > 1 {
-			cur = Missing
 		}
 		inner, err := put(cur, parts[1:], val)
 		if err != nil {
